@@ -149,9 +149,22 @@ CLAIMS.update({
     ),
 })
 
+CLAIMS.update({
+    "C05": dict(
+        technique="dimensional analysis of the SVD methods by structural abstract interpretation (backend svd / eigh / qr by specification) + sign-pairing lint of svd_flip + dispatch-table agreement",
+        text="PARTIAL claim; decides three structural clauses. (SVD-SCALING) truncated_svd, symeig_svd, randomized_svd and svd_interface with each method (with, without and with V-based sign resolution) return singular vectors of degree 0 and singular values of degree 1 in the matrix and add no quantities of different degree on the way -- the SVD of c*A is (U, c*S, V), so this is necessary for orthonormal vectors and true singular values (catches a missing square root in the Gram route, un-normalised or doubly normalised vectors, a range finder that is not orthonormalised when the power iterations are switched off, vectors multiplied by the spectrum); (FLIP-PAIRED) in each branch of svd_flip the sign vector multiplies both U and V exactly once, so sign resolution cannot change the product; (DISPATCH-AGREE) the branch method == '<name>' selects the function of that name and SVD_FUNS lists exactly the dispatched names. NOT decided: the values of the triplets, orthonormality itself, ordering, optimal truncation error, the randomized method's accuracy, shapes beyond min(shape), the non-negative option.",
+        note="Trusted: degree specification of backend svd / eigh / qr.",
+        design="DESIGN.md §22 (C05)",
+    ),
+    "C09": dict(
+        technique="dimensional analysis of the decomposition drivers by structural abstract interpretation (symbolic number of modes, per-position core tracking) + rank-clipping lint over the sequential SVD calls",
+        text="PARTIAL claim; decides two necessary conditions. (OUTPUT-DEGREE) the tensor represented by the output of TT-SVD, TR-SVD (starting mode 0) and HOOI is homogeneous of degree 1 in the input tensor (decompose c*X: the reconstruction must be c*X), all TT / TR cores but the last and all Tucker factors have degree 0 (orthonormal blocks carry no scale) and the last core / the Tucker core degree 1 -- also when the HOOI loop does not run; (RANK-CLIPPED) every sequential SVD of tensor_train / tensor_ring requests min(rows, columns, requested rank) components and stores that number back into the rank vector, and TR's first SVD is guarded by a rejecting test against min(rows, columns). NOT decided: exactness at sufficient rank, the quasi-optimality bounds, the lower bound by the largest discarded tail.",
+        note="Trusted: svd_interface by specification (decided for its own code under C05); initialize_tucker by specification (HOSVD); tensor_ring analysed for mode=0; tensor_train_matrix delegates to tensor_train.",
+        design="DESIGN.md §23 (C09)",
+    ),
+})
+
 NA = {
-    "C05": "Singular values, orthonormality and optimal truncation error are numerical facts about LAPACK results; no sound static argument bounds them.",
-    "C09": "Error bounds in terms of the data's singular spectrum are purely numerical.",
 }
 
 PENDING = {
